@@ -81,10 +81,6 @@ let render = function
   | XT (TGate b) -> "gate " ^ b01 b
   | XT (TAlloc a) -> Printf.sprintf "alloc %d" (int_of_nat a)
   | XT (TFree a) -> Printf.sprintf "free %d" (int_of_nat a)
-  (* stage 6: stores of VALUES are observed on the implementation (k2v2::payload objects living in operation-state
-     storage); stores of ERRORS (exception_ptr) are not: model-only events, dropped by tools/k2v2.py *)
-  | XT (TValCtor (k, v)) -> (match k with SLetE | SFinE -> "ector " ^ i v | _ -> "vctor " ^ i v)
-  | XT (TValDtor (k, v)) -> (match k with SLetE | SFinE -> "edtor " ^ i v | _ -> "vdtor " ^ i v)
   | XT (TLeafStop id) -> Printf.sprintf "stopseen %d" (int_of_nat id)
   | XT (TCall (f, x)) -> Printf.sprintf "call %s %s" (str_fn f) (i x)
   | XT (TLeak r) -> Printf.sprintf "leak %s" (b01 r)
